@@ -29,7 +29,7 @@ Print Assumptions C06_code_tie_load.
 
 (* ---- the tie to the code: src/polyseed.c as TRANSLATED on this run (Gen/CApi.v) ---- *)
 From Coq Require Import String.
-From PS Require Import Base GFDefs PackDefs StoreDefs MiscDefs StrDefs LangDefs ApiDefs GFProofs PackProofs StoreProofs CTieBase CTieLang CTiePhrase CTiePhraseEv CTieSplit CTieApi CTieDecode CTieEncode CTieLocals CTieInject CTieCmp CTieSearch.
+From PS Require Import Base GFDefs PackDefs StoreDefs MiscDefs StrDefs LangDefs ApiDefs SpecDefs SpecApi GFProofs PackProofs StoreProofs RefineProofs CTieBase CTieLang CTiePhrase CTiePhraseEv CTieSplit CTieApi CTieDecode CTieEncode CTieLocals CTieInject CTieCmp CTieSearch CodeTheorems.
 From PS.Gen Require Import Consts PrivConsts Langs.
 From PS.Gen Require CFuns.
 From PS.Gen Require CApi.
@@ -64,3 +64,22 @@ Theorem C06_code_tie_api_store :
            (Z.of_N (d_checksum d)) st0 = map Z.of_N (data_store d).
 Proof. exact @tie_store. Qed.
 Print Assumptions C06_code_tie_api_store.
+
+(* ON THE CODE: what the translated polyseed_store writes for a live seed of any reachable state, the translated polyseed_load turns back into the same struct (status OK, one allocation, one wipe of poly) - ties composed with C06_api_roundtrip *)
+Theorem C06_code_tie_roundtrip :
+  bool ->
+         forall (cs : state) (a : astate) (h : N) (d : data) (st0 : list Z) (gb gf : Z) 
+           (gs : list Z) (gc so0 : Z),
+         R cs a ->
+         heap_get (st_heap cs) h = Some d ->
+         spec_supported (as_mask a) (d_features d) = true ->
+         exists cevs : list CApi.cev,
+           CApi.polyseed_load (ptr (st_next cs)) CFuns.polyseed_mul2_table (Z.of_N (st_reserved cs))
+             (CApi.polyseed_store (Z.of_N (d_birthday d)) (Z.of_N (d_features d)) (map Z.of_N (d_secret d))
+                (Z.of_N (d_checksum d)) st0) gb gf gs gc so0 =
+           (cevs, Z.of_N (d_birthday d), Z.of_N (d_features d), map Z.of_N (d_secret d), 
+            Z.of_N (d_checksum d), ptr (st_next cs), 0%Z) /\
+           evs_of (st_deps cs) cevs =
+           [EvAlloc (dp_alloc_libc (st_deps cs)) sizeof_data (Some (st_next cs)); wipe_poly].
+Proof. exact @code_store_load. Qed.
+Print Assumptions C06_code_tie_roundtrip.
